@@ -361,16 +361,22 @@ Definition sstep (cs : list chanp) (st : sst) (o : bop) (b : bobs) : sst :=
   end.
 
 (* one channel's files at STOP *)
+(* every record of an LJH 2.2 / OFF file was cut with the pre-trigger length the file's header states
+   (the header is written once; LJH 3 stores the value per record) *)
+Definition pre_is (npre : Z) (rs : list rec) : bool := forallb (fun r => r_pre r =? npre) rs.
+
 Definition chan_files_ok (sp : srcp) (st : sst) (c : chanp) (acc accoff : list rec) (cf : chfiles) : bool :=
   (if s_t22 st
    then file22_ok (true_hdr22 sp c) (sp_tbn sp) (sp_tbd sp) (expect22 (sp_sfdiv sp) (cp_sfoff c))
                   (accepted22 (sp_nsamp sp) acc) (cf22 cf)
+        && pre_is (sp_npre sp) (accepted22 (sp_nsamp sp) acc)
    else is_absent (cf22 cf))
   && (if s_t3 st
       then file3_ok (true_hdr3 sp c) (sp_tbn sp) (sp_tbd sp) expect3 acc (cf3 cf)
       else is_absent (cf3 cf))
   && (match (if s_toff st then off_eligible c else None) with
       | Some (pj, bs, desc) => fileoff_ok (true_hdroff sp c pj bs desc) (sp_tbn sp) (sp_tbd sp) pj bs accoff (cfoff cf)
+                               && pre_is (sp_npre sp) accoff
       | None => is_absent (cfoff cf)
       end).
 
@@ -398,20 +404,46 @@ Definition step_ok (sp : srcp) (cs : list chanp) (st : sst) (o : bop) (b : bobs)
   | _, _ => false
   end.
 
+(* ---- requests that change the source's tables: ConfigurePulseLengths ---- *)
+Definition lens_change (sp : srcp) (nsamp npre : Z) : bool :=
+  negb ((sp_npre sp =? npre) && (sp_nsamp sp =? nsamp)).
+
+(* the tables after a request, given its observed outcome: an accepted change of lengths puts them in force and
+   removes every channel's projectors; anything else leaves the tables alone *)
+Definition cfg_step (sp : srcp) (cs : list chanp) (o : bop) (b : bobs) : srcp * list chanp :=
+  match o, b with
+  | BPulse nsamp npre, BOk =>
+      if lens_change sp nsamp npre then (with_lens sp npre nsamp, map clear_proj cs) else (sp, cs)
+  | _, _ => (sp, cs)
+  end.
+
+(* while a writing cycle is open (paused or not) the record lengths must not change: the headers of its files
+   were fixed at START.  A refused request changes nothing. *)
+Definition cstep_ok (sp : srcp) (cs : list chanp) (st : sst) (o : bop) (b : bobs) : bool :=
+  match o, b with
+  | BPulse nsamp npre, BOk => negb (s_active st) || negb (lens_change sp nsamp npre)
+  | BPulse _ _, BErr => true
+  | BPulse _ _, _ => false
+  | _, _ => step_ok sp cs st o b
+  end.
+
 Fixpoint check_from (sp : srcp) (cs : list chanp) (st : sst) (h : list (bop * bobs)) : bool :=
   match h with
   | [] => true
-  | (o, b) :: rest => step_ok sp cs st o b && check_from sp cs (sstep cs st o b) rest
+  | (o, b) :: rest =>
+      cstep_ok sp cs st o b &&
+      (let (sp', cs') := cfg_step sp cs o b in check_from sp' cs' (sstep cs st o b) rest)
   end.
 
 Definition C05_bench_check (sp : srcp) (cs : list chanp) (h : list (bop * bobs)) : bool :=
   check_from sp cs (s_init cs) h.
 
-(* state of the checker before the k-th step (for the statements of the theorems) *)
-Fixpoint sst_before (cs : list chanp) (st : sst) (h : list (bop * bobs)) (k : nat) : sst :=
-  match k, h with
-  | S k', (o, b) :: rest => sst_before cs (sstep cs st o b) rest k'
-  | _, _ => st
+(* tables and checker state before the k-th step (for the statements of the theorems) *)
+Fixpoint chk_before (sp : srcp) (cs : list chanp) (st : sst) (h : list (bop * bobs)) (k : nat)
+  : srcp * list chanp * sst :=
+  match h, k with
+  | (o, b) :: rest, S k' => let (sp', cs') := cfg_step sp cs o b in chk_before sp' cs' (sstep cs st o b) rest k'
+  | _, _ => (sp, cs, st)
   end.
 
 (* ---------------- ranges (hypotheses of the round-trip theorems) ---------------- *)
@@ -430,11 +462,13 @@ Definition recoff_fits (nb : Z) (r : rec) : Prop :=
   zlen (r_data r) < 2 ^ 31 /\ in_i32 (r_pre r) /\ in_i64 (r_frame r) /\ in_i64 (r_ns r) /\
   in_u32 (r_mean r) /\ in_u32 (r_delta r) /\ in_u32 (r_resid r) /\ Forall in_u32 (r_coefs r) /\ zlen (r_coefs r) = nb.
 
-(* a published record whose fields fit the three layouts (the premise "within field ranges") *)
+(* a published record whose fields fit the three layouts (the premise "within field ranges") and that was cut
+   with the pre-trigger length in force, as the processors cut them *)
 Definition pubrec_fits (sp : srcp) (c : chanp) (r : rec) : Prop :=
   in_i64 (r_frame r * sp_sfdiv sp + cp_sfoff c) /\ in_i64 (r_frame r) /\ in_i64 (r_ns r) /\
   in_i32 (r_pre r) /\ in_i32 (r_pre r + 1) /\ Forall in_u16 (r_data r) /\ zlen (r_data r) < 2 ^ 31 /\
-  in_u32 (r_mean r) /\ in_u32 (r_delta r) /\ in_u32 (r_resid r) /\ Forall in_u32 (r_coefs r).
+  in_u32 (r_mean r) /\ in_u32 (r_delta r) /\ in_u32 (r_resid r) /\ Forall in_u32 (r_coefs r) /\
+  r_pre r = sp_npre sp.      (* cut with the pre-trigger length in force *)
 
 (* matrices whose Data slice has rows*cols entries, each a 64-bit pattern *)
 Definition matrix_wf (m : matrix) : Prop :=
@@ -454,6 +488,13 @@ Definition op_wf (sp : srcp) (cs : list chanp) (o : bop) : Prop :=
   | BPub ch rs => 0 <= ch < zlen cs /\ Forall (pubrec_fits sp (nth (Z.to_nat ch) cs dflt_chan)) rs
   | BFlush ch => 0 <= ch < zlen cs
   | _ => True
+  end.
+
+(* a whole history: every request well-formed with respect to the tables in force when it is issued *)
+Fixpoint hist_wf (sp : srcp) (cs : list chanp) (h : list (bop * bobs)) : Prop :=
+  match h with
+  | [] => True
+  | (o, b) :: rest => op_wf sp cs o /\ (let (sp', cs') := cfg_step sp cs o b in hist_wf sp' cs' rest)
   end.
 
 (* four lists related element by element (channels, their two record lists, their publishers/files) *)
